@@ -26,11 +26,11 @@ Definition holds (k : case) : bool :=
   match k with
   | CFanin C k _ (Ok C') =>
       (2 <=? k)%nat && same_io (c_g C) (c_g C') && fanin_bounded (c_g C') k
-      && equiv_check (c_g C) (c_g C') && lint_cleanb C'
+      && equiv_oracle (c_g C) (c_g C') && lint_cleanb C'
       && bool_decide (c_bbs C' = c_bbs C)
   | CFanout C k _ (Ok C') =>
       (2 <=? k)%nat && same_io (c_g C) (c_g C') && fanout_bounded (c_g C') k
-      && equiv_check (c_g C) (c_g C') && lint_cleanb C'
+      && equiv_oracle (c_g C) (c_g C') && lint_cleanb C'
       && bool_decide (c_bbs C' = c_bbs C)
   | CFanin _ k _ (Raise ValueError) | CFanout _ k _ (Raise ValueError) => (k <? 2)%nat    (* documented: k >= 2 *)
   | CRegs C s order (Ok C') =>
